@@ -1321,6 +1321,40 @@ theorem src_yields_drive_the_steps (cfg : Cfg) (s : State) :
    fun i h => main_join_enabled_iff cfg s i h,
    fun k => ctlGo_is_ctlOp cfg k⟩
 
+open ALV.Gen.C17 in
+/-- **C17.src.9 src_run_successor** — the SUCCESSOR STRUCTURE of `stepPlayer` is computed from the
+regenerated skeleton: `nextPc skeleton gv pc` runs the control-flow interpreter of `Skel`
+(`ALV.Model.C17Next`: sequencing, `with`, the `for` loop and `break`, `if` with short-circuit `or` whose
+`go.is_set()` is a yield point of its own, `try … finally`, the inlined call of `thread_finished`) over
+`AudioThread.run` AS READ ON THIS RUN, from the yield point the program counter `pc` stands for (`ppcY`)
+to the next one, under the guard values `gv`.  For the source variant read on this run, EVERY step of
+a player thread in EVERY state moves its program counter exactly there (`playerGv`: the values of
+`halting`, `go.is_set()`, "another chunk", "still in `_threads`", "the iterable raises" in that state).
+So the branch structure of `stepPlayer` — after `write` test `halting` then `is_set`; `stop_stream`
+then `break` on `halting` else `wait`; re-test after `wait`; loop head; the exception leaving through
+`finally`; the epilogue with `close` and `thread_finished` only if still registered — is no longer
+hand-written: an edit of `run` that moves a `break`, a guard or the `finally` changes `nextPc skeleton`
+and breaks this theorem (besides `src_skeleton_is_documented`). -/
+theorem src_run_successor (cfg : Cfg) (hf : some cfg.fixed = srcFixed) (s s' : State) (i : Nat)
+    (p : Player) (hp : s.players[i]? = some p) (hs : stepPlayer cfg s i = some s') :
+    (s'.players[i]?).map (·.pc) = some (nextPc skeleton (playerGv s i p) p.pc) := by
+  have hfix : cfg.fixed = true := by
+    have := src_variant_is_modelled.1; rw [this] at hf; exact Option.some.inj hf
+  exact player_pc_is_nextPc cfg hfix s s' i p hp hs
+
+open ALV.Gen.C17 in
+/-- `nextPc skeleton` is total on the program counters of `run`: every one of them is a yield point
+the interpreter finds in the regenerated method (never the "not a yield point" answer `new`), under
+every guard valuation; a started thread begins at `write` or, with nothing to play, at the epilogue;
+and an exception at `write` (the played iterable raises) leaves through the `finally` clause: the
+epilogue (`finAcq`) — the only operation the model lets raise. -/
+theorem src_run_successor_total (h g m t : Bool) :
+    (∀ pc ∈ PPc.begin :: runPcs,
+      nextPc skeleton { halting := h, go := g, more := m, inThreads := t } pc ≠ .new) ∧
+    nextPc skeleton { more := m } .begin = (if m then .write else .finAcq) ∧
+    nextPc skeleton { halting := h, go := g, more := m, inThreads := t, raises := true } .write = .finAcq := by
+  cases h <;> cases g <;> cases m <;> cases t <;> decide
+
 /-- **C17.src.8 src_shutdown** — the liveness clause for the source AS READ: for the configuration
 whose `fixed` switch is the one extracted from `lazy_io.py` on this run, `wait=False`, every schedule
 of a script that calls `close` (no `join`), continued while some thread is enabled, ends with `close`
